@@ -103,8 +103,14 @@ def view(fx, path, depth=9, extra_stop=(), threaded=True):
         import thread
         v = inline.inlined(fx, f, depth, stop=tuple(sorted(st)))
         # closures that travel through generic helper parameters become known once the helper is inlined
+        import expand as _expand
         for _round in range(3):
-            if not inline.resolve_closures(fx, v):
+            changed = inline.resolve_closures(fx, v)
+            v2 = _expand.expanded(fx, v)          # combinators whose callable has just become known
+            if v2 is not v:
+                changed = True
+                v = v2
+            if not changed:
                 break
             v = inline.inlined(fx, v, depth, stop=tuple(sorted(st)))
         inline.resolve_closures(fx, v)
